@@ -155,6 +155,12 @@ fn main() {
                 println!("{}", w2::program(&[k.as_str()], &mut rng));
             }
         }
+        "trivia" => {
+            // debugging aid: print a file with trivia inserted: trivia <file> <seed>
+            let src = std::fs::read_to_string(&args[2]).expect("read");
+            let seed: u64 = args[3].parse().expect("seed");
+            print!("{}", simfs::insert_trivia(&src, seed));
+        }
         "selfcheck" => match self_checks() {
             Ok(()) => println!("selfcheck ok"),
             Err(e) => {
